@@ -102,6 +102,9 @@ bool recv_line(NativeSocket socket, std::string& line) {
     line.clear();
     char ch = 0;
     std::size_t count = 0;
+    // A response value travels on one line however long it is (a chunk listing grows with the store), so a
+    // response line may be as long as a streamed payload may be; 16 KiB stays the floor.
+    const std::size_t max_line = std::max(kMaxLineLength, max_control_stream_bytes());
     while (true) {
 #ifdef _WIN32
         const auto received = recv(socket, &ch, 1, 0);
@@ -116,7 +119,7 @@ bool recv_line(NativeSocket socket, std::string& line) {
         }
         if (ch != '\r') {
             line.push_back(ch);
-            if (++count > kMaxLineLength) {
+            if (++count > max_line) {
                 return false;
             }
         }
